@@ -5,7 +5,7 @@
   stop. (These are tests of the model on one input - labelled as such - whose only role is to show
   that the theorems are not vacuous.)
 -/
-import TrVerif.Props.C08
+import TrVerif.Props.C09Complete
 namespace Tr
 
 def nvDs : Dataset :=
@@ -57,5 +57,21 @@ theorem nv_hypotheses : WFData nvDs ∧ TimesBounded nvDs ∧ (nvDs.egress.map (
     simp at hc
     subst hc
     exact ⟨0, by decide⟩
+
+/-- ... and the additional hypotheses of `C08_complete` / `C08_earliest` / `C07_route_no_service_from_origin` -/
+theorem nv_hypotheses_complete : PosHops nvDs ∧ SelfFootArr nvDs ∧ StopsInRange nvDs ∧ nvFwd.maxFirstWait ≤ 0 ∧
+    (∀ a ∈ nvDs.access, 0 ≤ a.time) ∧ (nvDs.access.map (·.stop)).Nodup ∧ 0 ≤ nvFwd.time ∧ nvFwd.time < (HOUR_END : Int) * 3600 := by
+  have h1 : nvDs.conns = [⟨0, 1, 1000, 1300, 5, 1, true, true, -1⟩] := by decide
+  refine ⟨?_, ?_, ?_, by decide, by decide, by decide, by decide, by decide⟩
+  · intro c hc; rw [h1] at hc; simp at hc; subst hc; decide
+  · intro c hc; rw [h1] at hc; simp at hc; subst hc; exact ⟨0, by decide⟩
+  · intro c hc; rw [h1] at hc; simp at hc; subst hc; decide
+
+/-- ... and those of `C09_complete` / `C09_latest` -/
+theorem nv_hypotheses_reverse : DepStopsInRange nvDs ∧ (∀ g ∈ nvDs.egress, 0 ≤ g.time) ∧ (nvDs.egress.map (·.stop)).Nodup ∧
+    0 ≤ nvRev.time ∧ 0 ≤ nvRev.maxTransfer := by
+  have h1 : nvDs.conns = [⟨0, 1, 1000, 1300, 5, 1, true, true, -1⟩] := by decide
+  refine ⟨?_, by decide, by decide, by decide, by decide⟩
+  intro c hc; rw [h1] at hc; simp at hc; subst hc; decide
 
 end Tr
